@@ -52,14 +52,15 @@ pub fn c08_oracle(case: &PlanCase, trace: &Trace, ctx: &mut Ctx) {
     let mut fault_reached = false;
     let in_range = trace.steps.iter().all(|st| params_in_range(st.params));
     walk_model(case, trace, |i, m, st| {
-        let fault_here = case
-            .space_fail_at
-            .map(|k| st.uniform_calls.0 <= k && k < st.uniform_calls.1)
-            .unwrap_or(false)
-            || case
-                .goal_fail_at
-                .map(|k| st.goal_calls.0 <= k && k < st.goal_calls.1)
-                .unwrap_or(false);
+        let hit = |k: usize, r: (usize, usize)| {
+            if case.fault_persists {
+                r.1 > r.0 && r.1 > k
+            } else {
+                r.0 <= k && k < r.1
+            }
+        };
+        let fault_here = case.space_fail_at.map(|k| hit(k, st.uniform_calls)).unwrap_or(false)
+            || case.goal_fail_at.map(|k| hit(k, st.goal_calls)).unwrap_or(false);
         if fault_here {
             fault_reached = true;
         }
@@ -236,6 +237,8 @@ fn base_case(kind: KindTag, planner: PlannerTag) -> PlanCase {
         query_cap: 400_000,
         world2: None,
         space2: None,
+        fault_persists: false,
+        raw_space: false,
     }
 }
 
@@ -244,7 +247,12 @@ impl Prop for C08 {
     type Case = PlanCase;
     const ID: &'static str = "C08";
     const PART: &'static str = "histories-and-faults";
-    const RULE: &'static str = "enumerated: every call sequence of length <= 4 (quick) / 6 (thorough) over {setup(P1), setup(P2), construct_roadmap, set_problem_definition(P2), solve} per planner on two base worlds (RV2, SE2); every k < 12 for 'uniform sampler fails at its k-th call' and 'goal sampler fails at its k-th call' per planner; goal bias in {-0.1, 1+ulp, 1.5, NaN, +-inf}; empty start list; negative / NaN / zero step and radius; zero-sample roadmaps. Random: generated worlds with histories of up to 10 ops and the same fault kinds. Reference model of the API state gives the set of acceptable results per call; every call runs under catch_unwind. Non-trivial = history containing a misuse op, a sampler fault that was actually reached, an out-of-range parameter or an empty start list.";
+    // every loop of the planners is bounded by the iteration budget or by a fixed attempt count:
+    // a call that does not return under a failing sampler has not "surfaced the failure as an
+    // error"
+    const HANG_IS_VIOLATION: bool = true;
+    const WATCHDOG_S: u64 = 30;
+    const RULE: &'static str = "enumerated: every call sequence of length <= 4 (quick) / 6 (thorough) over {setup(P1), setup(P2), construct_roadmap, set_problem_definition(P2), solve} per planner on two base worlds (RV2, SE2); every k < 12 for 'uniform sampler fails at its k-th call' and 'goal sampler fails at its k-th call' per planner, and k in {0,1,2,5} for the same faults persisting from the k-th call on (a call that does not return within 30 s is a violation); goal bias in {-0.1, 1+ulp, 1.5, NaN, +-inf}; empty start list; negative / NaN / zero step and radius; zero-sample roadmaps. Random (4% with an angular interval the constructor must refuse: touching [-pi, pi] from outside or empty after clamping): generated worlds with histories of up to 10 ops and the same fault kinds. Reference model of the API state gives the set of acceptable results per call; every call runs under catch_unwind. Non-trivial = history containing a misuse op, a sampler fault that was actually reached, an out-of-range parameter or an empty start list.";
     fn random_cases(tier: Tier) -> usize {
         tier.pick(8_000, 80_000)
     }
@@ -260,6 +268,17 @@ impl Prop for C08 {
             ..Default::default()
         };
         let mut c = gen_plan_case(ch, &prof);
+        // ill-formed angular intervals that a constructor must refuse (the case is then
+        // unbuildable and discarded): touching [-pi, pi] from outside, empty after clamping
+        if ch.prob(0.04) {
+            for comp in c.space.comps.iter_mut() {
+                if let Comp::SO2 { bounds } = comp {
+                    let pi = std::f64::consts::PI;
+                    *bounds = Some(ch.pick(&[(pi, 4.0), (-4.0, -pi), (pi, pi + 1.0), (3.5, 4.0), (-5.0, -4.0)]));
+                    break;
+                }
+            }
+        }
         // misuse-heavy histories: drop the well-formed prefix half of the time
         if ch.prob(0.5) {
             let n = 1 + ch.below(10);
@@ -280,9 +299,13 @@ impl Prop for C08 {
         }
         match ch.weighted(&[4.0, 2.0, 2.0, 1.0, 1.0, 1.0]) {
             0 => {}
-            1 => c.space_fail_at = Some(ch.below(12)),
+            1 => {
+                c.space_fail_at = Some(ch.below(12));
+                c.fault_persists = ch.prob(0.4);
+            }
             2 => {
                 c.goal_fail_at = Some(ch.below(12));
+                c.fault_persists = ch.prob(0.4);
                 if ch.prob(0.5) {
                     c.goal_bias = 1.0;
                 }
@@ -365,6 +388,22 @@ impl Prop for C08 {
                         c.ops = std_ops.clone();
                         c.goal_bias = bias;
                         c.goal_fail_at = Some(k);
+                        emit(c);
+                    }
+                }
+                // the same faults persisting from the k-th call on
+                for k in [0usize, 1, 2, 5] {
+                    let mut c = base_case(kind, planner);
+                    c.ops = std_ops.clone();
+                    c.space_fail_at = Some(k);
+                    c.fault_persists = true;
+                    emit(c);
+                    for bias in [0.3, 1.0] {
+                        let mut c = base_case(kind, planner);
+                        c.ops = std_ops.clone();
+                        c.goal_bias = bias;
+                        c.goal_fail_at = Some(k);
+                        c.fault_persists = true;
                         emit(c);
                     }
                 }
